@@ -30,11 +30,16 @@ def gen(rng, tier, idx):
     models = [sf.ALL_MODELS[idx % 7]] + rng.derive("m").sample([m for m in sf.ALL_MODELS if m != sf.ALL_MODELS[idx % 7]], rng.derive("n").randint(0, 2))
     case = sf.base_trace(rng, size="small", models=models)
     case["stride"] = 1
+    # every other base trace: streams written by different builds of libovni (legal: the emulator only warns)
+    case["mixedlib"] = idx % 2 == 1
     return case
 
 
 def run(case, ctx):
     w, m, streams = sf.materialise(case)
+    if case.get("mixedlib"):
+        for i, s in enumerate(streams):
+            s.meta["ovni"]["lib"] = {"version": "1.11.%d" % (i % 2), "commit": "verif-%d" % ((i + 1) % 3)}
     exp, why = m.end_verdict()
     info = {"sim_ns": m.now, "size": len(case["actions"]), "ihash": ihash(case["actions"]), "nontrivial": True, "faults": {}, "probes": {},
             "evals": 0, "sample": {"world": w.describe(), "n_actions": len(case["actions"]), "stream_bytes": [len(s.obs_bytes()) for s in streams]}}
@@ -98,6 +103,15 @@ def run(case, ctx):
             info["faults"][kind] = info["faults"].get(kind, 0) + 1
             hashes.append(ihash([info["ihash"], desc]))
             okline = b"emulation finished ok" in se
+            if not (status == 0 or okline) and kind.startswith(("meta:", "header")) and kind != "meta:require-removed":
+                # the same stored state with every model forced on (-a): forcing models on excuses a model
+                # nobody required, nothing else
+                status, so, se = ctx.run_tool("ovniemu", ["-a", tdir])
+                info["evals"] += 1
+                info["probes"]["corruption also emulated with all models forced on (-a)"] = info["probes"].get("corruption also emulated with all models forced on (-a)", 0) + 1
+                okline = b"emulation finished ok" in se
+                if status == 0 or okline:
+                    desc += " [ovniemu -a]"
             for p, orig in changed:
                 open(p, "wb").write(orig)
             if status == 0 or okline:
